@@ -29,6 +29,7 @@ func prop(c udprun.Case) (o pbt.Outcome) {
 	o.Label("sessions=%d", len(c.Progs))
 	o.Label("drops>0=%v", res.Drops > 0)
 	o.Label("rawClient=%v", c.Cfg.RawClient)
+	o.Label("closedWindow=%v", c.ClosedWindow)
 	o.Label("dups>0=%v", res.Dups > 0)
 	o.Label("delays>0=%v", res.Delays > 0)
 	o.Label("retrans>0=%v", retrans > 0)
